@@ -154,6 +154,7 @@ func runC06(c *Ctx) {
 		linesPublishedBlanked(c, "C06-R7", rnl)
 	}
 	c06WhitespaceIsContent(c)
+	c06OnlyMatchedPositions(c)
 }
 
 func c06Literal(c *Ctx, fi *FuncInfo, info *types.Info, cl *ast.CompositeLit) {
@@ -1069,4 +1070,29 @@ func c06WhitespaceIsContent(c *Ctx) {
 	})
 	c.Check(bad == "", "C06-R7", "NewPositionRange:source lines are never trimmed", fi.Decl.Pos(), "whitespace is content",
 		"`"+bad+"` looks at a trimmed source line: a whitespace-only line inside a block or quoted scalar carries characters of the value; treating it as empty desynchronises value and source, and every later position of the field is wrong")
+}
+
+// c06OnlyMatchedPositions: NewPositionRange hands out positions of two kinds
+// only: those accumulated character by character by the scan (appendPosition),
+// and the single-point fallback (first == last column) for values that cannot
+// be located. A literal that spans a range computed from the value's length
+// assumes the value is written verbatim in the source, which is false for
+// quoted, escaped and folded scalars.
+func c06OnlyMatchedPositions(c *Ctx) {
+	fi := c.MustFunc("C06-R7", "internal/diags.NewPositionRange")
+	if fi == nil {
+		return
+	}
+	info := fi.Pkg.TypesInfo
+	bad := ""
+	n := 0
+	for _, cl := range compositeLits(info, fi.Decl.Body, "internal/diags.PositionRange") {
+		n++
+		f, l := litField(cl, "FirstColumn"), litField(cl, "LastColumn")
+		if f == nil || l == nil || exprStr(f) != exprStr(l) {
+			bad = "FirstColumn: " + exprStr(f) + ", LastColumn: " + exprStr(l)
+		}
+	}
+	c.Check(bad == "" && n >= 1, "C06-R7", "NewPositionRange:literal ranges are single-point fallbacks", fi.Decl.Pos(), itoa(n)+" literal(s), first == last",
+		"NewPositionRange builds a range `"+bad+"` arithmetically instead of by matching characters: for a quoted or escaped scalar the source text is longer than the value, so the range is shifted and too short")
 }
